@@ -82,6 +82,7 @@ func TestRegress(t *testing.T) {
 			runFile(t, "regress/"+f.Name())
 		}
 	}
+	t.Logf("max events per component in one run: %d", maxEventsPerComp)
 }
 
 func TestReplay(t *testing.T) {
